@@ -811,8 +811,8 @@ def case_tags(case: dict, a: Any | None) -> tuple[list[str], bool]:
 
 def oracle(ctx, prop: str, case: dict, impl: dict, a: Any) -> None:
     """Evaluate the property on the REAL engine's output for every round of the case.
-    C05: in a round where every input of the expression is present and the expression is defined, the emitted value is
-         the arithmetic value; and no number is ever emitted for an undefined expression.
+    C05: in a round where every input of the expression is present and the expression is defined, the formula's output
+         for that timestamp is the arithmetic value; and no number is ever emitted for an undefined expression.
     C13: exactly one sample per round, carrying the round's timestamp and the value demanded by `expected_sample`."""
     if "exc" in impl:
         ctx.violation("the real builder/engine raised " + impl["exc"], case, impl)
@@ -849,7 +849,9 @@ def oracle(ctx, prop: str, case: dict, impl: dict, a: Any) -> None:
                               {"round": rd, "emitted": got, "expected": want})
                 return
             if not got:
-                ctx.tags["round:defined-but-dropped"] = ctx.tags.get("round:defined-but-dropped", 0) + 1
+                ctx.violation("no value was emitted for a defined expression (all inputs present, no zero divisor)", case,
+                              {"round": rd, "emitted": got, "expected": want})
+                return
         else:
             if len(got) != 1:
                 ctx.violation("total: not exactly one sample for an input timestamp", case,
